@@ -13,7 +13,7 @@ PKGDIR = {"evaluator": "evaluator", "parser": "parser", "di": "di", "object": "o
 
 
 def sh(cmd, cwd=WT, timeout=900):
-    p = subprocess.run(cmd, shell=True, cwd=cwd, env=ENV, capture_output=True, text=True, timeout=timeout)
+    p = subprocess.run(cmd, shell=True, cwd=cwd, env=ENV, capture_output=True, text=True, errors="replace", timeout=timeout)
     return p.returncode, p.stdout + p.stderr
 
 
